@@ -123,6 +123,11 @@ class PersistentRemoteWorker(PersistentWorker, RemoteWorker):
                     pass
                 break
 
+        if not last_partial_result_signalled:
+            # the final result came without the child's own end-of-stream message (e.g. the server had to kill
+            # the child and reported on its behalf): consumers of the partial results must still see the stream end
+            self._results_pipe.child_end.put((counter, False, None, self.id))
+
         self._results_pipe.child_end.close()
 
     # Do not transfer results queue over network
